@@ -874,6 +874,14 @@ func (g *Gen) genC17() {
 				expOffs = len(lst) + 2
 			}
 		}
+		// an empty item right before a ',' / '?' terminator (skipped like any other empty item)
+		trailEmpty := false
+		if expErr == sipsp.ErrHdrOk && flags&4 == 0 && r.P(12) {
+			trailEmpty = true
+			ins := ws() + sep + ws()
+			lst += ins
+			expOffs += len(ins)
+		}
 		text := lst + term
 		cap := r.N(ni + 3)
 		var hd string
@@ -895,7 +903,7 @@ func (g *Gen) genC17() {
 			g.add(resumeCase("C17", hd, text, 0, r.Cuts(text, len(text)), flags, flags, "list-end-chunked"))
 		}
 		g.add(Case{Prop: "C17", Desc: []string{"token-params", "uri-params", "uri-headers"}[mode], Lines: []string{sess}, Check: func(out []string) string {
-			return protect(func() string {
+			m := protect(func() string {
 				bb := []byte(text)
 				chk := func(k int, p *sipsp.PTokParam) string {
 					if k >= len(items) {
@@ -1015,6 +1023,10 @@ func (g *Gen) genC17() {
 				}
 				return ""
 			})
+			if m != "" && trailEmpty {
+				return "empty item before the terminator not skipped: " + m
+			}
+			return m
 		}})
 		// a foreign byte inserted somewhere in a name or token value must be rejected, not absorbed
 		if ni > 0 && r.P(40) {
